@@ -2349,6 +2349,9 @@ impl Connection {
         for packet in sent_packets.into_values() {
             self.remove_in_flight(&packet);
         }
+        // Probes sent in a space whose keys the peer has already dropped are never acknowledged;
+        // their backoff must not carry over to the remaining spaces (RFC 9002 A.4)
+        self.pto_count = 0;
         self.set_loss_detection_timer(now)
     }
 
